@@ -875,7 +875,6 @@ func threadContinuation(F *ssa.Function, K *ssa.BasicBlock) {
 			}
 		}
 	}
-	lifted := map[*ssa.BasicBlock]map[ssa.Value]*ssa.Phi{}
 	var ops [16]*ssa.Value
 	for i := len(K.Preds) - 1; i >= 0; i-- {
 		computeOutside()
@@ -907,32 +906,6 @@ func threadContinuation(F *ssa.Function, K *ssa.BasicBlock) {
 			}
 		}
 		if kpos < 0 {
-			continue
-		}
-		single := (len(S.Preds) == 1 && S.Preds[0] == K) || lifted[S] != nil
-		// every outside use of a K value that the new path can reach must lie below S (or be a phi of S on K's edge)
-		reachS := reachAvoiding(S, map[*ssa.BasicBlock]bool{K: true}) // through K the value is defined anew
-		reachS[S] = true
-		safe := true
-		for _, kv := range kvals {
-			for _, us := range outside[kv] {
-				for _, at := range us.at {
-					if up, ok := us.in.(*ssa.Phi); ok && up.Block() == S && at == K {
-						continue
-					}
-					if !reachS[at] {
-						continue
-					}
-					if !single || !blockDominates(S, at) {
-						safe = false
-					}
-				}
-			}
-		}
-		if !safe {
-			if os.Getenv("SLUGCHECK_DEBUG") != "" {
-				fmt.Fprintf(os.Stderr, "   not safe (single=%v)\n", single)
-			}
 			continue
 		}
 		// the detour N: K's instructions as they run when K is entered from P
@@ -977,69 +950,6 @@ func threadContinuation(F *ssa.Function, K *ssa.BasicBlock) {
 		for idx, b := range F.Blocks {
 			b.Index = idx
 		}
-		if len(S.Preds) == 1 && lifted[S] == nil {
-			// S gets its own phis for the K values read below it
-			delete(domCache, F)
-			lifted[S] = map[ssa.Value]*ssa.Phi{}
-			var newPhis []ssa.Instruction
-			for _, kv := range kvals {
-				need := false
-				for _, us := range outside[kv] {
-					for _, at := range us.at {
-						if blockDominates(S, at) {
-							need = true
-						}
-					}
-				}
-				if !need {
-					continue
-				}
-				np := &ssa.Phi{Comment: kv.Name(), Edges: []ssa.Value{kv}}
-				setUnexported(np, "block", S)
-				setUnexported(np, "typ", kv.Type())
-				setUnexported(np, "pos", kv.Pos())
-				for _, us := range outside[kv] {
-					below := false
-					for _, at := range us.at {
-						if blockDominates(S, at) {
-							below = true
-						}
-					}
-					if !below {
-						continue
-					}
-					if up, ok := us.in.(*ssa.Phi); ok {
-						for jx, e := range up.Edges {
-							if e == kv && blockDominates(S, up.Block().Preds[jx]) {
-								up.Edges[jx] = np
-							}
-						}
-						still := false
-						for _, e := range up.Edges {
-							if e == kv {
-								still = true
-							}
-						}
-						if !still {
-							removeReferrer(kv, up)
-						}
-						addReferrer(np, up)
-						continue
-					}
-					for _, op := range us.in.Operands(ops[:0]) {
-						if *op == kv {
-							*op = np
-						}
-					}
-					removeReferrer(kv, us.in)
-					addReferrer(np, us.in)
-				}
-				addReferrer(kv, np)
-				lifted[S][kv] = np
-				newPhis = append(newPhis, np)
-			}
-			S.Instrs = append(newPhis, S.Instrs...)
-		}
 		// the new edge N → S
 		if !strings.Contains(S.Comment, "inl.") {
 			S.Comment += "+inl.target"
@@ -1073,6 +983,130 @@ func threadContinuation(F *ssa.Function, K *ssa.BasicBlock) {
 			}
 		}
 		delete(domCache, F)
+		// K's values that are read elsewhere now have two definitions — the one in K and the one on the
+		// detour: each reader takes the one that reaches it, with a phi where the two meet
+		for _, kv := range kvals {
+			if len(outside[kv]) == 0 {
+				continue
+			}
+			alt, ok := vals[kv]
+			if !ok || alt == kv {
+				continue
+			}
+			memo := map[*ssa.BasicBlock]ssa.Value{}
+			var made []*ssa.Phi
+			var atStart func(B *ssa.BasicBlock) ssa.Value
+			atEnd := func(B *ssa.BasicBlock) ssa.Value {
+				switch B {
+				case K:
+					return kv
+				case N:
+					return alt
+				}
+				return atStart(B)
+			}
+			atStart = func(B *ssa.BasicBlock) ssa.Value {
+				if v, ok := memo[B]; ok {
+					return v
+				}
+				switch len(B.Preds) {
+				case 0:
+					memo[B] = kv
+					return kv
+				case 1:
+					memo[B] = kv // cut cycles through single-predecessor chains
+					v := atEnd(B.Preds[0])
+					memo[B] = v
+					return v
+				}
+				np := &ssa.Phi{Comment: kv.Name()}
+				setUnexported(np, "block", B)
+				setUnexported(np, "typ", kv.Type())
+				setUnexported(np, "pos", kv.Pos())
+				memo[B] = np
+				for _, q := range B.Preds {
+					np.Edges = append(np.Edges, atEnd(q))
+				}
+				for _, e := range np.Edges {
+					addReferrer(e, np)
+				}
+				B.Instrs = append([]ssa.Instruction{np}, B.Instrs...)
+				made = append(made, np)
+				return np
+			}
+			for _, us := range outside[kv] {
+				if up, ok := us.in.(*ssa.Phi); ok {
+					for jx, e := range up.Edges {
+						if e != kv || jx >= len(up.Block().Preds) {
+							continue
+						}
+						nv := atEnd(up.Block().Preds[jx])
+						if nv != kv {
+							up.Edges[jx] = nv
+							addReferrer(nv, up)
+						}
+					}
+					still := false
+					for _, e := range up.Edges {
+						if e == kv {
+							still = true
+						}
+					}
+					if !still {
+						removeReferrer(kv, up)
+					}
+					continue
+				}
+				nv := atStart(us.in.Block())
+				if nv == kv {
+					continue
+				}
+				for _, op := range us.in.Operands(ops[:0]) {
+					if *op == kv {
+						*op = nv
+					}
+				}
+				removeReferrer(kv, us.in)
+				addReferrer(nv, us.in)
+			}
+			// phis that turned out to merge one value only
+			for changed := true; changed; {
+				changed = false
+				for mi, np := range made {
+					if np == nil {
+						continue
+					}
+					var only ssa.Value
+					same := true
+					for _, e := range np.Edges {
+						if e == ssa.Value(np) {
+							continue
+						}
+						if only == nil {
+							only = e
+						} else if only != e {
+							same = false
+						}
+					}
+					if !same || only == nil {
+						continue
+					}
+					for _, e := range np.Edges {
+						removeReferrer(e, np)
+					}
+					replaceUses(np, only)
+					blk := np.Block()
+					for idx, in := range blk.Instrs {
+						if in == ssa.Instruction(np) {
+							blk.Instrs = append(blk.Instrs[:idx:idx], blk.Instrs[idx+1:]...)
+							break
+						}
+					}
+					made[mi] = nil
+					changed = true
+				}
+			}
+		}
 	}
 	if len(K.Preds) == 0 {
 		// K is dead: take it out
